@@ -24,6 +24,7 @@ def gen_cases(tier, seed):
 
 
 EG, EF = 0.6, 0.8
+ASSUMPTIONS.append("a species' monthly requirement is livestock_unit x regional LSU factor x 29000 MJ/yr/12/4.187 (Mcal) x head count, recomputed from the species' attributes at every feeding call")
 
 
 def check_call(r, where):
@@ -34,6 +35,8 @@ def check_call(r, where):
     req, herd_n, fed = r["req"], r["herd"], r["fed"]
     sc = max(1e-12, req, r["g0"] * r["eg"], r["f0"] * r["ef"])
     tol = 1e-9 * sc
+    if "req_attr" in r and abs(req - r["req_attr"]) > 1e-9 * max(req, r["req_attr"], 1e-300):
+        out.append(("requirement_differs_from_species_attributes", "%s: fed against a requirement of %.8g, livestock units x regional factor x head count give %.8g" % (where, req, r["req_attr"])))
     if dg < -tol or df < -tol:
         out.append(("feeding_creates_supply", "%s: grass %+.6g feed %+.6g returned to the pool" % (where, -dg, -df)))
     if r["g1"] < -tol or r["f1"] < -tol:
